@@ -211,7 +211,7 @@ fn long_pair(rng: &mut Rng, lo: usize, hi: usize, short_hi: usize, kind: usize) 
 
 impl Prop for C12 {
     fn gen(&mut self, rng: &mut Rng, _tier: Tier, i: usize, _n: usize) -> Val {
-        // the long-string stream: 1 case in 400 with texts of 2000..2400 units each (kinds 0-2, 5: halves) or
+        // the long-string stream: 1 case in 400 with texts of 2000..2200 units each (kinds 0-2, 5: halves) or
         // 5000..20000 units against at most 40 (kinds 3, 4); 1 case in 25 of middle size (50..400 units; against
         // at most 60 for kinds 3, 4).  Flags drawn at random (the index is fixed modulo 16).
         if i % 400 == 199 || i % 25 == 12 {
@@ -224,12 +224,19 @@ impl Prop for C12 {
             } else if kind == 3 || kind == 4 {
                 long_pair(rng, 5000, 20000, 40, kind)
             } else {
-                long_pair(rng, 2000, 2400, 40, kind)
+                long_pair(rng, 2000, 2200, 40, kind)
             };
             let (a, b) = if rng.chance(1, 2) { (a, b) } else { (b, a) };
             // distances(): usually one pair or none; 1 in 5 a batch of 4..6 alternating between the whole texts and
             // their first characters (long and short pairs mixed); 1 in 10 unequal lengths (Err)
-            let na = if rng.chance(1, 5) { rng.range(4, 6) } else { rng.below(3) };
+            // (two long texts: at most 4, i.e. two long pairs — every long pair is one more matrix for the model's run
+            // and one more for its check, and the model has 20 s of CPU per case)
+            let both_long = long && kind != 3 && kind != 4;
+            let na = if rng.chance(1, 5) {
+                if both_long { 4 } else { rng.range(4, 6) }
+            } else {
+                rng.below(if both_long { 2 } else { 3 })
+            };
             let nb = if rng.chance(1, 10) { na + 1 } else { na };
             return mk_input(g, swap, sid, norm, &a.concat(), &b.concat(), na, nb);
         }
